@@ -309,7 +309,26 @@ func (i *interp) visitInstr(fr *frame, instr ssa.Instruction) continuation {
 		*addr = i.zero(deref(instr.Type()))
 
 	case *ssa.MakeSlice:
-		ln := i.mustInt(fr.get(instr.Len), instr.Len.Type(), "make len")
+		var ln int64
+		if lt, isT := fr.get(instr.Len).(*term.T); isT && !lt.IsConst() {
+			// symbolic length: case split over the small concrete lengths
+			_, signed, _ := intInfo(instr.Len.Type())
+			if signed && i.decide(i.ctx.Cmp(term.Slt, lt, i.ctx.BV(lt.W, 0)), "make len < 0") {
+				i.throw("makeslice: len out of range")
+			}
+			found := false
+			for k := 0; k <= i.cfg.MaxIndexFork; k++ {
+				if i.decide(i.ctx.EqT(lt, i.ctx.BV(lt.W, uint64(k))), "make len == k") {
+					ln, found = int64(k), true
+					break
+				}
+			}
+			if !found {
+				unsupported("make with a symbolic length that may exceed %d", i.cfg.MaxIndexFork)
+			}
+		} else {
+			ln = i.mustInt(fr.get(instr.Len), instr.Len.Type(), "make len")
+		}
 		var cp int64
 		if ct, isT := fr.get(instr.Cap).(*term.T); isT && !ct.IsConst() {
 			// symbolic capacity with a concrete length: the capacity only
